@@ -8,7 +8,7 @@
 (* (event, failing clause) pairs - empty when the history is accepted.     *)
 (* Ground truth (Opt...) is computed once per input, in TLA+.              *)
 (***************************************************************************)
-EXTENDS Contract, Textbook, Json, IOUtils
+EXTENDS Contract, Textbook, OutputTypes, Json, IOUtils
 CONSTANT Active        \* the properties whose clauses are switched on, e.g. {"C01"}
 
 Traces == JsonDeserialize(IOEnv.TRACE_FILE)
@@ -36,7 +36,8 @@ C06Fails(vals, k, r) ==
    IF r.out # "ret" THEN <<>>           \* nothing reported, nothing to describe (C01 owns missing results)
    ELSE IF ~r.exact THEN <<"C06.sum_not_exact">>
    ELSE IF ~SumsDescribeBins(vals, r) THEN <<"C06.sums_do_not_describe_bins">>
-   ELSE <<>>
+   ELSE Flatten([j \in 1..Len(r.ots) |-> LET d == Disagrees(r.ots[j], r.sums, r.lists)
+                                         IN IF d = "" THEN <<>> ELSE <<"C06." \o r.ots[j].t \o "." \o d>>])
 
 \* C08: ratio bounds need a valid result; judged on the bins' true sums
 C08Fails(vals, k, r, F) ==
@@ -74,6 +75,18 @@ C14Fails(vals, k, r) ==
            ELSE IF r.alg = "roundrobin" /\ BagOfBins(vals, r.lists) # BagOfBins(vals, m.c) THEN <<"C14.bins_differ_from_rule">>
            ELSE <<>>
 
+\* C07: the same call in another presentation (list / numpy array / dict / names+valueof).  base = the first event of the
+\* history with the same algorithm and configuration.
+SameCall(a, b) == a.alg = b.alg /\ a.cfg = b.cfg /\ a.it = b.it /\ a.d = b.d
+BaseOf(res, e) == res[Min({ j \in 1..e : SameCall(res[j], res[e]) })]
+C07Fails(vals, k, res, e) ==
+   LET r == res[e]   b == BaseOf(res, e)
+   IN IF r.out # b.out THEN <<"C07.outcome_differs_between_formats:" \o b.out \o "/" \o r.out>>
+      ELSE IF r.out # "ret" THEN <<>>
+      ELSE (IF ~r.exact \/ ~b.exact \/ ~SameBag(r.sums, b.sums) THEN <<"C07.sums_differ_between_formats">> ELSE <<>>)
+        \o (IF r.fmt \in {"dict", "valueof"} /\ ~(IdsValid(vals, r) /\ EveryItemOnce(vals, r)) THEN <<"C07.named_result_not_a_partition_of_the_names">> ELSE <<>>)
+        \o (IF r.fmt \in {"dict", "valueof"} /\ IdsValid(vals, r) /\ ~SumsDescribeBins(vals, r) THEN <<"C07.named_bins_do_not_reproduce_sums">> ELSE <<>>)
+
 EventFails(vals, k, r, F) ==
       (IF "C01" \in Active THEN C01Fails(vals, k, r) ELSE <<>>)
    \o (IF "C02" \in Active THEN C02Fails(vals, k, r, F) ELSE <<>>)
@@ -86,6 +99,7 @@ NeedsF == Active \cap {"C02", "C08"} # {}
 Verdict(T) ==
    LET F == IF NeedsF THEN FinalSums(T.vals, T.k) ELSE {}
        per == [e \in 1..Len(T.res) |-> LET fs == EventFails(T.vals, T.k, T.res[e], F)
+                                              \o (IF "C07" \in Active THEN C07Fails(T.vals, T.k, T.res, e) ELSE <<>>)
                                        IN [j \in 1..Len(fs) |-> [e |-> e, c |-> fs[j]]]]
    IN Flatten(per)
 
